@@ -342,16 +342,15 @@ func TestVF_C11_Proxy(t *testing.T) {
 				pr.Req.SetVersion(pr.Version)
 			}
 			pr.Encode()
-			out := vfc11kit.Exchange(conn, pr, 30*time.Second)
+			out := vfc11kit.Exchange(conn, pr, 60*time.Second)
 			st.Class("class:" + pr.Class)
 			st.Class("outcome:" + out.Kind)
 			if pr.Advertised {
 				st.Class(fmt.Sprintf("key-%02d", pr.Key))
 			}
 			switch out.Kind {
-			case "timeout":
-				inconclusive = fmt.Sprintf("no answer to %s (%s) within the 30s guard (%v) shape=%s frame=%x", pr.Name(), pr.Class, out.Err, pr.Shape, pr.Frame)
-				t.Skip(inconclusive)
+			case "request-lost", "silent":
+				t.Fatalf("%s (%s) via proxy (%s): %s: %v\nshape=%s frame=%x", pr.Name(), pr.Class, mode, out.Kind, out.Err, pr.Shape, c11Clip(pr.Frame))
 			case "wrong-correlation", "extra-reply":
 				t.Fatalf("%s (%s) via proxy: %s: %v\nreply=%x extra=%x", pr.Name(), pr.Class, out.Kind, out.Err, c11Clip(out.Reply), c11Clip(out.Extra))
 			case "noreply":
